@@ -541,9 +541,53 @@ impl<SVC: Service + Send> Server for CloudServer<SVC> {
     }
 
     async fn get_snapshot(&mut self) -> Result<Option<(VersionId, Snapshot)>> {
-        let Some((version_id, name)) = self.snapshot_info().await? else {
-            return Ok(None);
+        // Collect all snapshots.
+        let mut snapshots = Vec::new();
+        {
+            let mut iterator = self.service.list("s-").await;
+            while let Some(res) = iterator.next().await {
+                let ObjectInfo { name, .. } = res?;
+                if let Some(version_id) = Self::parse_snapshot_name(&name) {
+                    snapshots.push(version_id);
+                }
+            }
+        }
+        let version_id = match snapshots[..] {
+            [] => return Ok(None),
+            [version_id] => version_id,
+            _ => {
+                // Several snapshots: use the newest one on the chain. The versions following an
+                // older one may have been cleaned up already, so that a replica starting from it
+                // could never reach the latest version.
+                // ("latest" is read before the listing, so that the listing has its ancestors)
+                let mut version = self.get_latest().await?;
+                let mut parent_of = HashMap::new();
+                {
+                    let mut iterator = self.service.list("v-").await;
+                    while let Some(res) = iterator.next().await {
+                        let ObjectInfo { name, .. } = res?;
+                        if let Some((p, c)) = Self::parse_version_name(&name) {
+                            parent_of.insert(c, p);
+                        }
+                    }
+                }
+                let mut newest = snapshots[0];
+                let mut iterations = parent_of.len() + 1; // For cycle detection.
+                while let Some(v) = version {
+                    if snapshots.contains(&v) {
+                        newest = v;
+                        break;
+                    }
+                    version = parent_of.get(&v).copied();
+                    iterations -= 1;
+                    if iterations == 0 {
+                        return Err(Error::Server("Version cycle detected".into()));
+                    }
+                }
+                newest
+            }
         };
+        let name = Self::snapshot_name(&version_id);
         let Some(payload) = self.service.get(&name).await? else {
             return Ok(None);
         };
